@@ -85,6 +85,11 @@ func Random(r *rand.Rand, local bool) Scn {
 					if !s.Cluster {
 						po.NS = "ns2"
 					}
+				case 5, 6:
+					if !s.Cluster { // a cluster-scoped kind listed by a namespaced ObjectSet (with / without namespace)
+						po.Kind = "ClThing"
+						po.NS = pick(r, []string{"", "ns1"})
+					}
 				case 4:
 					if used >= 2 { // duplicate of an earlier object
 						po.Name = names[0]
